@@ -38,6 +38,7 @@ type blockedSignal struct{ what string }
 // one atomic operation of a second thread at the lock / atomic / file-system boundaries of
 // the operation under test.
 func (vm *VM) schedPoint(what string) {
+	vm.concSchedPoint(what)
 	P := vm.P
 	if P.interpose == nil || P.interposeBudget <= 0 || P.curThread != 1 || vm.inInit || P.inSchedPoint {
 		return
@@ -94,6 +95,98 @@ func (vm *VM) spawn(fr *Frame, x *ssa.Go) {
 		my[vm.P.curThread]++
 	}
 	vm.P.pending = append(vm.P.pending, pg)
+}
+
+// ---- two-thread interleaving exploration (vConcurrent) -------------------------------------
+//
+// vConcurrent(f, switches) registers f as the operation of a second request that runs
+// CONCURRENTLY with what the main thread does next: at every scheduling point (lock, unlock,
+// file-system call, and atomic operation when vInterposeAtomics is on) of the running thread the
+// engine may switch to the other one.  Every interleaving with at most `switches` switches from
+// the main thread to the second one is explored (preemption bounding); the second thread may
+// hand control back at any of its own scheduling points.  vJoin() lets it run to its end.
+// vInterpose is the special case "the second operation runs atomically".
+func (vm *VM) concSchedPoint(what string) {
+	P := vm.P
+	co := P.conc
+	if co == nil || vm.inInit || P.concJoining {
+		return
+	}
+	if what == "atomic" && !P.interposeAtomics {
+		return
+	}
+	if vm.co == co {
+		// inside the second thread: hand control back to the main thread here?
+		if vm.chooseLogged(2) == 1 {
+			co.ready, co.what = func() bool { return true }, "preempted at "+what
+			co.yield <- coroMsg{}
+			if !<-co.resume {
+				panic(abortCoro{})
+			}
+		}
+		return
+	}
+	if vm.co != nil || P.curThread != 1 || P.concBudget <= 0 || P.concDone {
+		return
+	}
+	// main thread: switch to the second thread here?
+	idx := -1
+	for i, c := range P.parked {
+		if c == co {
+			idx = i
+		}
+	}
+	if co.started && idx < 0 {
+		return // it is running further up the stack (we are inside one of its callbacks)
+	}
+	if idx >= 0 && co.ready != nil && !co.ready() {
+		return // it waits for something the main thread has not done yet
+	}
+	if vm.chooseLogged(2) == 0 {
+		return
+	}
+	P.concBudget--
+	P.interposedAt = append(P.interposedAt, "switch at "+what+" @ "+vm.where())
+	if idx >= 0 {
+		P.parked = append(P.parked[:idx:idx], P.parked[idx+1:]...)
+	}
+	if vm.stepCoro(co) {
+		P.concDone = true
+	}
+}
+
+// concJoin lets the second thread run to its end (it is no longer preempted).
+func (vm *VM) concJoin() {
+	P := vm.P
+	co := P.conc
+	if co == nil || P.concDone {
+		return
+	}
+	P.concJoining = true
+	defer func() { P.concJoining = false }()
+	for !P.concDone {
+		idx := -1
+		for i, c := range P.parked {
+			if c == co {
+				idx = i
+			}
+		}
+		if co.started && idx < 0 {
+			return
+		}
+		if idx >= 0 {
+			if co.ready != nil && !co.ready() {
+				// it waits for a lock or channel nobody will serve any more
+				vm.P.Oblig++
+				vm.recordViolation("deadlock.second-thread-blocked-forever", "the concurrent operation cannot finish: "+co.what, tTrue)
+				return
+			}
+			P.parked = append(P.parked[:idx:idx], P.parked[idx+1:]...)
+		}
+		if vm.stepCoro(co) {
+			P.concDone = true
+		}
+	}
 }
 
 // ---- goroutines as coroutines --------------------------------------------------------------
